@@ -159,8 +159,8 @@ CHECKS = {
                           'on every invariant-satisfying state); lists longer than the stated vector capacities, hence the limits MAX_KEYS_PER_TOPIC = 50, '
                           'MAX_CLAIM_TOPICS = 15, MAX_ISSUERS = 50, MAX_TOKENS = 10000, MAX_DOCUMENTS = 5000, MAX_COUNTRY_ENTRIES = 15 themselves (their comparisons '
                           'are on every growing path but never true within the capacities; MAX_REGISTRIES_PER_KEY = 20 and MAX_MODULES = 20 are exercised at the '
-                          'limit); the token-binder bucket boundary (BUCKET_SIZE = 100: a harness with 100-element buckets, kani/src/registries/binder.rs mod edge, exceeds 12 GB in symbolic execution and is NOT registered; the in-bucket harnesses cover the swap-and-pop and index logic for counts below the vector capacity, the bucket arithmetic index / BUCKET_SIZE, index % BUCKET_SIZE is only exercised with quotient 0); the document-manager '
-                          'bucket boundary (BUCKET_SIZE = 50 entries of 12 words) and URIs above 16 bytes (MAX_URI_LEN = 200); more than two accounts / two '
+                          'limit); the token-binder bucket boundary AT THE REAL WIDTH (covered at bucket width 2 through the cfg(stellar_verif) hook, see reg_buckets.py; BUCKET_SIZE = 100: a harness with 100-element buckets, kani/src/registries/binder.rs mod edge, exceeds 12 GB in symbolic execution and is NOT registered; the in-bucket harnesses cover the swap-and-pop and index logic for counts below the vector capacity, the bucket arithmetic index / BUCKET_SIZE, index % BUCKET_SIZE is only exercised with quotient 0); the document-manager '
+                          'bucket boundary at the real width (BUCKET_SIZE = 50 entries of 12 words; covered at width 2 through the hook) and URIs above 16 bytes (MAX_URI_LEN = 200); more than two accounts / two '
                           'country entries per identity; the hook-execution functions of the compliance contract (C04 family); the smart-account context-rule '
                           'registry (separate family); the contract-level wrappers that add authorization (the storage functions under test document that they '
                           'bypass authorization)'),
